@@ -2,6 +2,8 @@ import BigDec.Model.Inverse
 import BigDec.Proofs.Arith
 import BigDec.Proofs.InvAccuracy
 import BigDec.Proofs.InvTerm
+import BigDec.Props.C06
+import BigDec.Proofs.DisplayLen
 import BigDec.Proofs.EstCode
 /-! # C12 — reciprocal
 
@@ -212,6 +214,129 @@ theorem C12_accuracy_on_termination_code (n : Nat) (scale : Int) (p : Nat) (m : 
     (h : implInverse estGuard n scale p m g fuel = some res) :
     |res.value - 1 / (Dec.mk n scale).value| < (10 : ℚ) ^ (-res.scale) :=
   C12_accuracy_on_termination estGuard_ok n scale p m g fuel res hn hp hg hguess h
+
+/-- **exact whenever `1/x` has at most `p` significant digits** (`1/x = Y·10^-t` with `0 < Y < 10^p`):
+    the exit iterate, being within 0.61 units of its last digit of a number on its own grid, IS `1/x`,
+    and the final rounding to `p` digits leaves a `p`-digit value unchanged - so whatever
+    `impl_inverse` returns equals `1/x` exactly, under every mode. -/
+theorem C12_exact_when_short {est : Nat → Nat} (hest : EstOK est) (n : Nat) (scale : Int) (p : Nat) (m : Mode)
+    (g : Dec) (fuel : Nat) (res : Dec) (hn : 0 < n) (hp : 1 ≤ p) (hg : 0 < g.value)
+    (hguess : |1 - (Dec.mk n scale).value * g.value| ≤ 94 / 100)
+    (Y : Nat) (t : Int) (hY0 : 0 < Y) (hYp : Y < 10 ^ p)
+    (hshort : 1 / (Dec.mk n scale).value = (Y : ℚ) * (10 : ℚ) ^ (-t))
+    (h : implInverse est n scale p m g fuel = some res) :
+    res.value = 1 / (Dec.mk n scale).value := by
+  rw [C12_result_is_rounded_iterate] at h
+  cases hloop : invLoop est ⟨n, scale⟩ p fuel Dec.zero (invNext ⟨n, scale⟩ g) with
+  | none => rw [hloop] at h; simp at h
+  | some R =>
+    rw [hloop] at h
+    simp only [Option.bind_some] at h
+    have hs : 0 < (Dec.mk n scale).value := by
+      rw [value_pos_iff]; simp; omega
+    have hv := invNext_value ⟨n, scale⟩ g
+    obtain ⟨g1, g2⟩ := abs_le.mp hguess
+    have hrun : 0 < (invNext ⟨n, scale⟩ g).value := by
+      rw [hv]; apply mul_pos hg; linarith
+    have hres : |1 - (Dec.mk n scale).value * (invNext ⟨n, scale⟩ g).value| ≤ 9 / 10 := by
+      rw [hv]
+      have e : 1 - (Dec.mk n scale).value * (g.value * (2 - (Dec.mk n scale).value * g.value))
+          = (1 - (Dec.mk n scale).value * g.value) ^ 2 := by ring
+      rw [e, abs_of_nonneg (sq_nonneg _)]
+      nlinarith
+    have hzero : Dec.zero.value = 0 := by simp [Dec.zero, Dec.value]
+    obtain ⟨r1, r2, b, hb, heb, hRb⟩ := invLoop_exit hest ⟨n, scale⟩ hs p hp fuel Dec.zero _ R hrun hres (Or.inl hzero) hloop
+    have hsharp := exit_sharp hest ⟨n, scale⟩ hs p hp b hb heb (by rw [← hRb]; exact r2)
+    rw [← hRb, hshort] at hsharp
+    have hextra : Generated.inverseExtraPrec = 2 := rfl
+    have hRint : 0 < R.int := (value_pos_iff R).mp r1
+    have hdv := invNext_value ⟨n, scale⟩ b
+    obtain ⟨e1, e2⟩ := abs_le.mp heb
+    obtain ⟨hρ0, hρ⟩ := invRho_small p hp
+    have hdpos : 0 < (invNext ⟨n, scale⟩ b).value := by rw [hdv]; apply mul_pos hb; linarith
+    have hlow := withPrec_int_lower hest (invNext ⟨n, scale⟩ b) (p + Generated.inverseExtraPrec) (by omega) ((value_pos_iff _).mp hdpos)
+    rw [← hRb, hextra] at hlow
+    have hlowN : 10 ^ (p + 1) ≤ R.int.natAbs := by
+      have : (R.int.natAbs : Int) = R.int := by omega
+      have h2 : ((10 ^ (p + 2 - 1) : Nat) : Int) ≤ (R.int.natAbs : Int) := by rw [this]; exact_mod_cast hlow
+      have h3 : 10 ^ (p + 2 - 1) ≤ R.int.natAbs := by exact_mod_cast h2
+      simpa using h3
+    -- in units of R's last digit: |R.int − Y·10^(R.scale − t)| ≤ 0.61
+    have hU : (0 : ℚ) < (10 : ℚ) ^ (-R.scale) := zpow_pos (by norm_num) _
+    have hRnat : (R.int : ℚ) = (R.int.natAbs : ℚ) := by
+      rw [← Int.cast_natCast, Int.natAbs_of_nonneg (by omega)]
+    have hunits : |(R.int.natAbs : ℚ) - (Y : ℚ) * (10 : ℚ) ^ (R.scale - t)| ≤ 61 / 100 := by
+      have e : R.value - (Y : ℚ) * (10 : ℚ) ^ (-t) = ((R.int.natAbs : ℚ) - (Y : ℚ) * (10 : ℚ) ^ (R.scale - t)) * (10 : ℚ) ^ (-R.scale) := by
+        unfold Dec.value
+        rw [hRnat, sub_mul, mul_assoc, ← zpow_add₀ (by norm_num : (10 : ℚ) ≠ 0)]
+        congr 3; ring
+      rw [e, abs_mul, abs_of_pos hU] at hsharp
+      exact le_of_mul_le_mul_right hsharp hU
+    -- R.scale > t
+    have hsc : t < R.scale := by
+      by_contra hcon
+      push Not at hcon
+      have hle : (10 : ℚ) ^ (R.scale - t) ≤ 1 := zpow_le_one_of_nonpos₀ (by norm_num) (by omega)
+      have hYq : (Y : ℚ) < (10 : ℚ) ^ p := by exact_mod_cast hYp
+      have hRq : (10 : ℚ) ^ (p + 1) ≤ (R.int.natAbs : ℚ) := by exact_mod_cast hlowN
+      have hY0q : (0 : ℚ) ≤ (Y : ℚ) := Nat.cast_nonneg _
+      have h1 : (Y : ℚ) * (10 : ℚ) ^ (R.scale - t) ≤ (10 : ℚ) ^ p := by
+        calc (Y : ℚ) * (10 : ℚ) ^ (R.scale - t) ≤ (Y : ℚ) * 1 := mul_le_mul_of_nonneg_left hle hY0q
+          _ ≤ (10 : ℚ) ^ p := by linarith
+      have h2 : (10 : ℚ) ^ (p + 1) = 10 * (10 : ℚ) ^ p := by rw [pow_succ]; ring
+      have h3 : (1 : ℚ) ≤ (10 : ℚ) ^ p := one_le_pow₀ (by norm_num)
+      have := (abs_le.mp hunits).2
+      linarith
+    obtain ⟨j, hj⟩ : ∃ j : Nat, R.scale - t = j ∧ 1 ≤ j := ⟨(R.scale - t).toNat, by omega, by omega⟩
+    rw [hj.1, zpow_natCast] at hunits
+    -- integers within 0.61 of each other are equal
+    have hRY : R.int.natAbs = Y * 10 ^ j := by
+      have hcast : ((R.int.natAbs : ℚ) - (Y : ℚ) * (10 : ℚ) ^ j) = (((R.int.natAbs : Int) - ((Y * 10 ^ j : Nat) : Int) : Int) : ℚ) := by
+        simp only [Int.cast_sub, Int.cast_natCast, Nat.cast_mul, Nat.cast_pow, Nat.cast_ofNat, Int.cast_mul, Int.cast_pow, Int.cast_ofNat]
+      rw [hcast] at hunits
+      have hlt : |(((R.int.natAbs : Int) - ((Y * 10 ^ j : Nat) : Int) : Int) : ℚ)| < 1 := by linarith
+      rw [← Int.cast_abs] at hlt
+      have : |(R.int.natAbs : Int) - ((Y * 10 ^ j : Nat) : Int)| < 1 := by exact_mod_cast hlt
+      have := abs_lt.mp this
+      omega
+    -- R = 1/x
+    have hRval : R.value = (Y : ℚ) * (10 : ℚ) ^ (-t) := by
+      unfold Dec.value
+      rw [hRnat, hRY]
+      push_cast
+      rw [mul_assoc, ← zpow_natCast, ← zpow_add₀ (by norm_num : (10 : ℚ) ≠ 0)]
+      congr 2; omega
+    -- the final rounding drops only zeros
+    have hndY : numDigits Y ≤ p := numDigits_le_of_lt_pow Y p hp hYp
+    have hndR : numDigits R.int.natAbs = numDigits Y + j := by rw [hRY, numDigits_mul_pow Y j (by omega)]
+    have hnd : p + 2 ≤ numDigits R.int.natAbs := by
+      have := numDigits_mono hlowN
+      rw [numDigits_pow] at this; omega
+    have hdig : R.digits > p := by unfold Dec.digits; omega
+    rw [if_pos hdig] at h
+    have hspec := withPrecisionRound_spec R p m res h
+    unfold Spec.roundToPrec at hspec
+    rw [Spec.numDigits_eq_model, ← C06_withScaleRound] at hspec
+    obtain ⟨k, hk⟩ : ∃ k : Nat, numDigits R.int.natAbs - p = k ∧ 2 ≤ k ∧ k ≤ j := ⟨numDigits R.int.natAbs - p, rfl, by omega, by omega⟩
+    have hns : R.scale + ((p : Int) - (numDigits R.int.natAbs : Int)) = R.scale - k := by omega
+    rw [hns] at hspec
+    have hkk : (R.scale - (R.scale - (k : Int))).toNat = k := by omega
+    have hrep : R.int.natAbs % 10 ^ (R.scale - (R.scale - (k : Int))).toNat = 0 := by
+      rw [hkk, hRY]
+      obtain ⟨i, hi⟩ : ∃ i, j = k + i := ⟨j - k, by omega⟩
+      rw [hi]
+      exact Nat.mod_eq_zero_of_dvd (Dvd.intro (Y * 10 ^ i) (by rw [pow_add]; ring))
+    have hrepr := C06_representable R (R.scale - k) m (by omega) hrep
+    rw [hkk] at hrepr
+    have hscale := C06_scale R (R.scale - k) m
+    rw [← hspec] at hrepr hscale
+    -- value of res = value of R
+    rw [hshort, ← hRval]
+    unfold Dec.value
+    rw [hscale, ← hrepr]
+    push_cast
+    rw [mul_assoc, ← zpow_natCast, ← zpow_add₀ (by norm_num : (10 : ℚ) ≠ 0)]
+    congr 2; ring
 
 /-- **the iteration terminates**: for every `x > 0`, precision `p ≥ 1`, digit estimate satisfying
     `EstOK` and initial guess within 94% of `1/x`, the loop stops within `p + 10` iterations
